@@ -490,9 +490,10 @@ func v28val(tag string, kind, maxLen int) (Value, v28m) {
 		}
 		coef := rt.U64Range(tag+".coef", v28coefMin, v28coefMax)
 		exp := rt.IntRange(tag+".exp", -128, 127)
-		// (exponents 1..15 make Hash divide the coefficient, which the bit-vector solver does
-		// not get through; those decimals are covered by the int-mode numeric harnesses)
-		rt.Assume(exp <= 0 || exp >= 16)
+		// (exponents 1..19 make Hash convert the decimal to an integer - divisions and
+		// multiplications of the coefficient that the bit-vector solver does not get through;
+		// those decimals are covered by the int-mode numeric harnesses and VerifC28NumHashWide)
+		rt.Assume(exp <= 0 || exp >= 20)
 		return SuDnum{Dnum: dnum.Raw(sign, coef, exp)}, m
 	case v28Str:
 		m.rank, m.s = 2, v28str(tag, maxLen)
@@ -622,7 +623,7 @@ func v28pair(a, b Value, ma, mb v28m) {
 
 // C28 all kinds: every pair of kinds with symbolic payloads.
 //
-//symgo:harness qtimeout=120000 prop=C28 tier=quick shards=16 timeout=300 ttimeout=1700 bounds=pairs_of:boolean|small_int|SuInt64_(any)|finite_decimal_(any_16-digit_coefficient,exponent_<=0_or_>=16)|SuStr,SuConcat_(every_split),SuExcept_of_0..2_bytes_(thorough_0..3)|SuDate,SuTimestamp_(any_field_bits)|object_with_0..1_small-int_list_members outside=integer_against_decimal_and_decimals_with_exponent_1..15_(numeric_harnesses);hash_of_two_Equal_decimals_with_exponent_1..15;member_lookup_with_two_decimal_keys;longer_strings;nested_objects_(VerifC28Objects)
+//symgo:harness qtimeout=120000 prop=C28 tier=quick shards=16 timeout=300 ttimeout=1700 bounds=pairs_of:boolean|small_int|SuInt64_(any)|finite_decimal_(any_16-digit_coefficient,exponent_<=0_or_>=20)|SuStr,SuConcat_(every_split),SuExcept_of_0..2_bytes_(thorough_0..3)|SuDate,SuTimestamp_(any_field_bits)|object_with_0..1_small-int_list_members outside=integer_against_decimal_and_decimals_with_exponent_1..19_(numeric_harnesses);hash_of_two_Equal_decimals_with_exponent_1..19;member_lookup_with_two_decimal_keys;longer_strings;nested_objects_(VerifC28Objects)
 func VerifC28Pairs() {
 	maxLen := 2
 	if rt.Thorough() {
